@@ -7,7 +7,7 @@ import re
 
 import numpy as np
 
-from ..engine import Violation
+from ..engine import Violation, _short_tb
 from ..seeds import H
 from ..simfs import HarnessError
 from .. import fortran as F
@@ -1149,8 +1149,21 @@ class DataStoreMachine(StoreMachine):
         for stale in ('.pdat', '.MESH', '.MESHA', '.MESHB'):
             if dst + stale not in self.files_of(dst, cfg):
                 ctx.fs.files.pop(dst + stale, None)
-        self.ref[dst] = {'state': 'ack', 'snap': r['snap'], 'cfg': cfg,
-                         'files': self.files_of(dst, cfg), 'foreign': True}
+        snap = r['snap']
+        if r.get('shipped'):
+            # a real simulator input file may hold numbers only the Fortran reader understands
+            # ('- 5.0' in AUTOUGH2/1): what the re-emission carries is what that reader makes of
+            # the original text, not what the default reader made of it
+            ctx.fs.begin_op(self.STEP_BUDGET)
+            try:
+                snap = snap_data(self.read(src, cfg))
+            except Exception as e:
+                raise Violation('EXC', 'reading shipped data file %r with fortran_read_function '
+                                'raised %s' % (src, _short_tb(e)))
+            ctx.probes['foreign_of_shipped'] += 1
+        self.ref[dst] = {'state': 'ack', 'snap': snap, 'cfg': cfg,
+                         'files': self.files_of(dst, cfg), 'foreign': True,
+                         'shipped': r.get('shipped')}
         ctx.state_changes += 1
         ctx.probes['foreign_fortran_style_%s%s%s' % (letter, 'p' if pad else 's',
                                                       'c' if crlf else '')] += 1
@@ -1196,7 +1209,7 @@ class DataStoreMachine(StoreMachine):
         cfg['echo_off'] = bool(cfg['xp']) and not dat.echo_extra_precision
         cfg['present'] = list(dat._sections)
         self.ref[name] = {'state': 'ack', 'snap': snap_data(dat), 'cfg': cfg,
-                          'files': self.files_of(name, cfg), 'foreign': True}
+                          'files': self.files_of(name, cfg), 'foreign': True, 'shipped': True}
         ctx.state_changes += 1
         ctx.probes['shipped_data_' + d] += 1
         ctx.fp.append(('S', d))
